@@ -187,6 +187,7 @@ func runC02(rc *RunCtx) {
 		}
 		rc.Cov.Sample(map[string]interface{}{"history_tail": e.history[max(0, len(e.history)-12):], "used_pairs": len(e.M.Used)})
 	}
+	ProbeHistory(rc, rc.Pick(200, 800), false)
 	// plus generic hostile histories (restarts interleaved)
 	for h := 0; h < rc.Pick(1, 4); h++ {
 		e, err := NewHistoryEngine(rc, GenOpts{Unpaused: true}, false, false)
